@@ -1,4 +1,4 @@
-SERVED = ["C08", "C13", "C17", "C20"]
+SERVED = ["C08", "C13", "C17", "C18", "C20"]
 HOOKS = {
     "guard": "PSYCHEC_VERIF",
     "enable": "harness/Makefile compiles /repo's sources with -DPSYCHEC_VERIF into /verif/.cache/build-<flavour>/; "
@@ -69,5 +69,17 @@ CHECKS = {
         "note": "Trusted: Coq kernel incl. vm_compute; hand transcription C08Model.v of DeclarationBinder_Specifiers.cpp (tied by exhaustive correspondence, not regenerated: "
                 "deviation from the design's T1 plan, see DESIGN.md); the row table; extraction; harness. Print Assumptions: closed under the global context.",
         "technique": "Coq bisimulation proof (generic lemma + kernel-checked finite relation) for sequences of any length + exhaustive model/implementation correspondence",
+    },
+    "C18": {
+        "text": "Theorems C18_identity / C18_inv (induction over call histories of any length, hence any number of growth steps and rehashes; proved for every hash "
+                "function and instantiated with the transcribed hashCode): two findOrInsert calls with NUL-free words return the same element exactly when the words are "
+                "byte-for-byte equal; stored texts are only ever appended, never changed; the invariant (every element is in the chain of its bucket, no duplicates) holds after "
+                "every history.  C18_identity_with_NUL_refuted shows the NUL-freeness hypothesis is needed (strncmp).  The hand-written model is tied to TextElementTable by comparing "
+                "results AND every bucket's chain on exhaustive short histories, threshold-straddling, colliding and random histories; the implementation is also compared with the "
+                "first-occurrence reference on a history of 40,000 (thorough 400,000) distinct words, and lexeme pointer identity with token text on generated sources.",
+        "design_ref": "DESIGN.md section 6, C18",
+        "note": "Trusted: Coq kernel; hand transcription C18Model.v (chains as index lists, object identity as element index, int arithmetic unbounded: < 2^28 elements); extraction; harness. "
+                "That tokens are NUL-free is C01/C05's business. Print Assumptions: closed under the global context.",
+        "technique": "Coq invariant proof by induction over operation histories (any hash function) + model/implementation correspondence incl. internal chains",
     },
 }
